@@ -815,6 +815,9 @@ def compare_roundtrip(ctx, p, rd, conflicts_reported, exc):
         keys.setdefault(key, []).append(msg)
 
     reused_paths = {rd.basis_paths[f] for f in info["reused"]} | {rd.basis_paths[f] for f in rd.replaced if f in rd.basis_paths and "delete" in sel.of(f)}
+    # (also when the deletion that freed the path is pending but was not itself selected: the entry that took the path is
+    # shelved on its own - same mechanism, seen in subset selections; thorough seed 3 case 3682)
+    reused_paths |= {q for f, q in rd.basis_paths.items() if f not in pre.paths and q in set(pre.paths.values())}
     reused_fids = set(info["reused"]) | {f for f, q in pre.paths.items() if q in reused_paths} | rd.replaced
 
     def feature(fid=None):
